@@ -26,8 +26,21 @@ EncodeConforms(h, bytes, out) ==
                 /\ out.dec_ok /\ out.dec_hrp = LowerS(h) /\ out.dec_data = bytes
      /\ ~e.ok => out.str = <<>>
 
+\* the regrouping package under Bech32 (pkg/bech32/internal/base32), bound directly
+Base32EncodeConforms(src, out) ==
+  /\ out.panic = "" /\ out.src_unchanged /\ out.tail_untouched
+  /\ out.syms = ToBase32(src) /\ out.n = Len(out.syms) /\ out.len = out.n
+Base32DecodeConforms(syms, out) ==
+  LET d == FromBase32(syms) IN
+  /\ out.panic = "" /\ out.src_unchanged /\ out.tail_untouched
+  /\ out.ok = d.ok
+  /\ out.ok => out.bytes = d.bytes /\ out.n = Len(d.bytes) /\ out.n = out.maxlen
+  /\ ~out.ok => out.kind \in {"length", "padding"} /\ out.off \in 0..Len(syms) /\ out.n \in 0..out.maxlen
+
 Conforms(e) ==
   CASE e.op = "bech32.Decode" -> DecodeConforms(e.in.s, e.out)
+    [] e.op = "base32.Encode" -> Base32EncodeConforms(e.in.src, e.out)
+    [] e.op = "base32.Decode" -> Base32DecodeConforms(e.in.syms, e.out)
     [] e.op = "bech32.Encode" -> EncodeConforms(e.in.hrp, e.in.data, e.out)
     [] e.op = "bech32.polymod" -> e.out.panic = "" /\ e.out.v = Polymod(e.in.values)
     [] OTHER -> FALSE
